@@ -7,7 +7,7 @@ from ..report import Report
 from ..vals import FuncCtx
 from ..engines import region
 from .. import inv
-from . import common, regionrules
+from . import common, regionrules, listrules
 
 PID = "C05"
 
@@ -100,6 +100,8 @@ def rules(rep, m):
                     r2.fail()
                 else:
                     r2.ok()
+    # the process-side record: removing a holdable unlinks exactly the matching tag
+    listrules.check_list_removal(rep, r2, m, "cmi_process_remove_holdable")
     # R-C05-3 ------------------------------------------------------------
     r3 = rep.rule("R-C05-3", "the in-use / available / held-by queries are functions of the holder field only, and "
                   "the registered drop callback clears the holder", floor=4)
